@@ -202,6 +202,27 @@ func c14Paths(c *Case) {
 	} else {
 		p = c14Path(g, elems, attrs, docPrefixes, false)
 	}
+	if g.Chance(0.25) {
+		// a prefixed test directly followed by an operator name, inside a predicate: //*[p:a and q:b], [p:a or ..], [count(p:a) div 1 = 1]
+		pools := docPrefixes
+		if config == "ii" {
+			pools = mapPrefixes(m)
+		}
+		q1 := c14Path(g, elems, attrs, pools, true)
+		q2 := c14Path(g, elems, attrs, pools, true)
+		q1.Abs, q2.Abs = false, false
+		q1.Steps, q2.Steps = q1.Steps[len(q1.Steps)-1:], q2.Steps[len(q2.Steps)-1:]
+		var pred xref.Expr
+		switch g.Intn(3) {
+		case 0:
+			pred = xref.Bin{Op: g.Pick("and", "or"), L: q1, R: q2}
+		case 1:
+			pred = xref.Bin{Op: "=", L: xref.Bin{Op: g.Pick("div", "mod"), L: xref.Call{Name: "count", Args: []xref.Expr{q1}}, R: xref.Num{Lex: "1"}}, R: xref.Num{Lex: g.Pick("0", "1")}}
+		default:
+			pred = xref.Bin{Op: g.Pick("and", "or"), L: q1, R: xref.Call{Name: "not", Args: []xref.Expr{q2}}}
+		}
+		p = xref.Path{Abs: true, Steps: []*xref.Step{xgen.DSlash(), {Axis: "child", Abbrev: "child", Test: xref.Test{Kind: "*"}, Preds: []xref.Expr{pred}}}}
+	}
 	src := xref.Render(p)
 	prefixed, used := hasPrefixedTest(p)
 	det := func() map[string]interface{} {
@@ -342,6 +363,10 @@ func c14Funcs(c *Case) {
 		}
 		if g.Chance(0.2) {
 			return xref.Path{Steps: []*xref.Step{xgen.SelfDot()}}
+		}
+		if g.Chance(0.25) {
+			// a path argument that ENDS in '.' or self::node() is still a path, not the context node
+			p.Steps = append(p.Steps, []*xref.Step{xgen.SelfDot(), {Axis: "self", Test: xref.Test{Kind: "node"}}}[g.Intn(2)])
 		}
 		return p
 	}
